@@ -168,6 +168,8 @@ type pvWorld struct {
 	posts []pvPost
 	curOp int
 
+	panicSig, panicMsg string
+
 	pool     []netmap.NodeInfo // simulated storage nodes (fake 33-byte public keys)
 	localIdx int               // pool index of the local node, -1 if it is not a pool node
 	localPub []byte
@@ -275,6 +277,12 @@ func (w *pvWorld) nodeIndex(pub []byte) int {
 		}
 	}
 	return -1
+}
+
+func (w *pvWorld) recCount() int {
+	w.mu.Lock()
+	defer w.mu.Unlock()
+	return len(w.recs)
 }
 
 func (w *pvWorld) nodeName(n int) string {
@@ -622,7 +630,21 @@ func (w *pvWorld) pvCatchPanic(shape string) {
 		}
 		return c
 	}, msg)
-	w.r.Report("put-panic", fmt.Sprintf("%s: %s [%s]", site, generic, shape), "the PUT pipeline panicked: %s\n%s", msg, debug.Stack())
+	w.mu.Lock()
+	w.panicSig = fmt.Sprintf("%s: %s [%s]", site, generic, shape)
+	w.panicMsg = fmt.Sprintf("the PUT pipeline panicked: %s\n%s", msg, debug.Stack())
+	w.mu.Unlock()
+}
+
+// reportPanic raises the violation for a panic caught by pvCatchPanic (called by the
+// scheduler once the task is over, so that a more specific diagnosis can come first).
+func (w *pvWorld) reportPanic() {
+	w.mu.Lock()
+	sig, msg := w.panicSig, w.panicMsg
+	w.mu.Unlock()
+	if sig != "" {
+		w.r.Failf("put-panic", sig, "%s", msg)
+	}
 }
 
 func pvErrClass(err error) string {
